@@ -8,6 +8,8 @@ for work done inside the regex engine; a trip is re-measured three times in isol
 
 from __future__ import annotations
 
+import itertools
+
 import json
 import os
 import resource
@@ -398,6 +400,27 @@ def parse_cases(ctx: core.Ctx, rng):
                 if filler == " " and n == 2000:
                     yield {"kind": "parse", "source": opener + filler * n + "b", "mode": "lax"}
                     yield {"kind": "parse", "source": ("x" + opener + filler * 200) * 10, "mode": "strict"}
+    # every tag name with every malformed expression fragment, in the tolerant modes (where a parser that reports an error goes on, and
+    # must still get somewhere), and unterminated blocks with stray inner tags
+    for tname in MF.TAG_NAMES:
+        if not tname or tname.startswith("end"):
+            continue
+        for fi, frag in enumerate(MF.EXPR_FRAGMENTS):
+            k += 1
+            if k % ctx.nshards != ctx.shard:
+                continue
+            yield {"kind": "parse", "source": "{% " + tname + " " + frag + " %}x{{ y }}", "mode": ("lax", "warn", "strict")[(k + fi) % 3]}
+    inner = ["{% else %}", "{% elsif b %}", "{% when 1 %}", "{% else %}x", "{% plural %}", "{% break %}"]
+    for opener in ("{% if a %}", "{% unless a %}", "{% case a %}", "{% for i in xs %}", "{% tablerow i in xs %}", "{% capture c %}", "{% ifchanged %}", "{% macro m %}", "{% with a: 1 %}",
+                   "{% block b %}", "{% translate %}", "{% liquid\n if a\n", "{% liquid\n unless a\n else\n else\n"):
+        for n_inner in range(0, 4):
+            for combo in itertools.product(inner, repeat=n_inner):
+                k += 1
+                if k % ctx.nshards != ctx.shard:
+                    continue
+                if n_inner == 3 and k % 4:
+                    continue
+                yield {"kind": "parse", "source": opener + "1" + "".join(combo) + "2", "mode": ("strict", "lax", "warn")[k % 3]}
     # deep expression nesting (parentheses, bracketed paths, not-chains, filter arguments), far beyond anything a block nesting limit covers
     for n in (20, 100, 400, 1500):
         for mode in ("strict", "lax"):
